@@ -279,9 +279,12 @@ def make_strategy(script, observer=None, name='S'):
     return Scripted
 
 
-def gen_script(rng, spot=False, step=0.125, rich=True):
-    """a random script biased to valid sessions (affordable sizes, no shorts on spot)"""
+def gen_script(rng, spot=False, step=0.125, rich=True, tight=False):
+    """a random script biased to valid sessions (affordable sizes, no shorts on spot).
+    tight=True: exits a few ticks from the entry so that several orders are reachable inside one minute"""
     def off(lo, hi):
+        if tight:
+            lo, hi = max(1, lo // 3), max(2, hi // 2)
         return rng.randint(lo, hi) * step
     s = {}
     kind = rng.choice(['market', 'limit', 'stop', 'ladder'])
